@@ -73,7 +73,7 @@ BADADDR = ['256.1.1.1', '1.2.3', '1.2.3.4.5', '1..3.4', '01.2.3.4', '1.2.3.4.', 
            '::1%lo', '[::1]', '1.2.3.4/8', '-1.2.3.4', '', '4294967297.1.1.1']
 PORTS = ['0', '1', '80', '1023', '1024', '65535']
 BADPORT = ['65536', '70000', '99999', '100000', '4294967376', '18446744073709551696', '', '-1', '+1', '0x50', '080', '00', ' 80', '8 0', '80x', '65535 ',
-           '6553５', '1e3', '9223372036854775807', '9223372036854775808']
+           '6553\xb5', '1e3', '9223372036854775807', '9223372036854775808']
 TRAILS = [b'', b'G', b'GET / HTTP/1.1\r\nHost: a\r\n\r\n', b'\r\n', b'PROXY UNKNOWN\r\n', MAGIC2]
 ALPHA = [0x00, 0x0a, 0x0d, 0x20, 0x2e, 0x30, 0x34, 0x36, 0x39, 0x3a, 0x66, 0x78, 0x7f, 0xff]
 
